@@ -108,8 +108,8 @@ func stepView(op int) {
 	verifSymOnly()
 	verifMapSource(verifMapA)
 	nDocs := 1
-	if verifThorough() {
-		nDocs = 2
+	if verifThorough() && op != 2 && op != 3 {
+		nDocs = 2 // (WriteCas and SetXattrs with two symbolic rows exceed the thorough time limit)
 	}
 	env := verifWorld(true, 2, nDocs)
 	verifCutEvents()
